@@ -281,6 +281,7 @@ func driveRings(plan []M, out *Out, _ []string) {
 			out.Emit(ev)
 			continue
 		}
+		fvisited, gvisited := []int{}, []int{}
 		ev["fpanic"] = protect(func() {
 			var R, Q *lists.Ring[int]
 			if r > 0 {
@@ -315,6 +316,38 @@ func driveRings(plan []M, out *Out, _ []string) {
 				ev["fret"] = p.fid(R.Link(Q))
 			case "Unlink":
 				ev["fret"] = p.fid(R.Unlink(k))
+			case "DoMut":
+				// Do whose callback changes the ring once, when it sees its at-th value: links a fresh node, or another ring, behind
+				// the element it is looking at, or unlinks that element's successor (unless that is the ring Do started from)
+				seen, done := 0, false
+				hung := false
+				withWatchdog(3*time.Second, &hung, func() {
+					R.Do(func(v int) {
+						fvisited = append(fvisited, v)
+						seen++
+						if done || seen != num(c, "at") || v < 1 || v > len(p.fr) {
+							return
+						}
+						done = true
+						x := p.fr[v-1]
+						switch str(c, "mut") {
+						case "linknew":
+							n := new(lists.Ring[int])
+							n.Value = len(p.fr) + 1
+							p.fr = append(p.fr, n)
+							x.Link(n)
+						case "link":
+							x.Link(Q)
+						case "unlink":
+							if x.Next() != R {
+								x.Unlink(1)
+							}
+						}
+					})
+				})
+				if hung {
+					panic("hang: Do did not return within 3s")
+				}
 			}
 		})
 		ev["gpanic"] = protect(func() {
@@ -351,6 +384,37 @@ func driveRings(plan []M, out *Out, _ []string) {
 				ev["gret"] = p.gid(R.Link(Q))
 			case "Unlink":
 				ev["gret"] = p.gid(R.Unlink(k))
+			case "DoMut":
+				seen, done := 0, false
+				hung := false
+				withWatchdog(3*time.Second, &hung, func() {
+					R.Do(func(a any) {
+						v := anyInt(a)
+						gvisited = append(gvisited, v)
+						seen++
+						if done || seen != num(c, "at") || v < 1 || v > len(p.gr) {
+							return
+						}
+						done = true
+						x := p.gr[v-1]
+						switch str(c, "mut") {
+						case "linknew":
+							n := new(ring.Ring)
+							n.Value = len(p.gr) + 1
+							p.gr = append(p.gr, n)
+							x.Link(n)
+						case "link":
+							x.Link(Q)
+						case "unlink":
+							if x.Next() != R {
+								x.Unlink(1)
+							}
+						}
+					})
+				})
+				if hung {
+					panic("hang: Do did not return within 3s")
+				}
 			}
 		})
 		// observe the handles the plan names (observing a zero-value ring would initialise it)
@@ -392,6 +456,7 @@ func driveRings(plan []M, out *Out, _ []string) {
 			}
 			gobs = M{"len": ln, "do": do, "next": nx, "prev": pv}
 		})
+		fo["visited"], gobs["visited"] = fvisited, gvisited
 		ev["f"], ev["g"] = fo, gobs
 		ev["x"] = fo["do"]
 		out.Emit(ev)
